@@ -63,6 +63,16 @@ def run(ctx):
     ex_none = M.Explore(ri, assume={dl: 0})
     # under deadline = None the 'nothing ready' exit can only be reached if poll returned with no flag: masks (R04.2) make that impossible for real events
     ctx.floor("R04.1", "TimedOut construction sites", len(tb), 1)
+    # "reports a timeout only if t has really elapsed": a TimedOut is built either after the clock test said so, or when the multiplexer
+    # reported *no* stream ready at all (with a deadline: its poll ran the remaining time out; without one that cannot happen, R04.4)
+    nothing_e = [bool_edges(ri, T, (lambda k: lambda c: E.ready is not None and M.noref(c) in (E.ready[k], M.noref(E.ready[k])))(k), False) for k in range(3)]
+    for tbb in sorted(set(tb)):
+        by_clock = dominated_by_edges(ri, tbb, chk_edges)
+        by_poll = all(ne and dominated_by_edges(ri, tbb, ne) for ne in nothing_e)
+        ctx.ob("R04.1", "timeout-only-if-elapsed", by_clock or by_poll, ri.loc(tbb),
+               "Err(TimedOut) may be produced only (a) under `Instant::now() >= deadline`, or (b) when maybe_poll reported none of stdin/stdout/stderr ready "
+               "(all three flags false); a timeout raised while some stream is ready is reported before t elapsed — and even with no limit set "
+               "(clock-guarded=%s, all-three-flags-false=%s)" % (by_clock, by_poll))
 
     # ---- R04.2 no reportable event is ignored ----------------------------------------------------------
     Tm = M.Terms(mp)
